@@ -250,7 +250,7 @@ def run_order(spec, ctx):
             ctx.count("order_programs_after_edits")
         src = pre_edit + ORDER_PROG.replace("{C}", coll).replace("{KW}", kw).replace("{EXTRA}", extra).replace("{MEMB}", memb)
         # precondition (so that nothing beyond the statement is demanded): on these very elements the language's <
-        # must be a strict total order -- mixed kinds fall back to text order, which can be cyclic (10 < date < 3)
+        # must be a strict total order -- (across kinds it used to be cyclic: 10 < date < 3; repaired, and C12 now asserts it)
         lst = "[" + ", ".join(elems) + "]"
         # whatever the order is, it does not depend on how the collection was written down: the same elements in another
         # literal order are visited in the same sequence (checked even where `<` gives no total order on them)
